@@ -118,6 +118,9 @@ def render_file(f):
                 pass
             else:
                 ex = _cmp_expr(s["op"], left, getter(e["site"]), e.get("reflect", False), key, e.get("cop", "eq"))
+            if e.get("via") == "thread":
+                # the comparison is executed by a worker thread which the test starts and joins
+                ex = f"in_thread(lambda: {ex})"
             if loop and e.get("fin"):
                 # the comparison sits in a finally block, whose body the compiler emits twice: even iterations reach the call on the
                 # normal path, odd ones on the exceptional path - two instructions, one call in the source
